@@ -568,6 +568,9 @@ func checkC12(rc *Run) error {
 	if err := checkFrontMatter(rc); err != nil {
 		return err
 	}
+	if err := checkTargetKinds(rc); err != nil {
+		return err
+	}
 	rc.Set("states", mcRef.Distinct+gen.Distinct)
 	rc.Set("transitions", mcRef.Generated+gen.Generated)
 	rc.Set("schedules_enumerated", len(scheds))
